@@ -129,7 +129,8 @@ class G:
         r = self.r.random()
         if r < 0.3: return self.primary(d)
         if r < 0.4:
-            e = self.r.choice([self.ident(), "this", self.ident() + self.args(d), "(" + self.expr(d + 1) + ")", self.string()])
+            e = self.r.choice([self.ident(), "this", self.ident() + self.args(d), "(" + self.expr(d + 1) + ")", self.string(),
+                               "this" + self.args(d), "super" + self.args(d), "super." + self.ident() + self.args(d)])
             for _ in range(self.r.randint(1, 3)):
                 k = self.r.random()
                 if k < 0.5: e += "." + self.ident() + self.args(d)
@@ -178,7 +179,11 @@ class G:
         if d > self.maxdepth: return self.ident() + self.args(d) + ";"
         r = self.r.random()
         if r < 0.18:
-            mods = self.r.choice(["", "final ", self.annotation() + " "]) if self.r.random() < 0.3 else ""
+            # variable modifiers: final and annotations, any number, any order
+            ms = [self.r.choice(["final", self.annotation()]) for _ in range(self.r.randint(1, 3))] if self.r.random() < 0.3 else []
+            if ms.count("final") > 1: ms = [x for x in ms if x != "final"] + ["final"]
+            self.r.shuffle(ms)
+            mods = "".join(x + " " for x in ms)
             ty = "var" if self.r.random() < 0.15 else self.type()
             decl = self.ident() + ((" = " + (self.expr(d) if not ty.endswith("]") or self.r.random() < 0.5 else "{" + self.literal() + "}")) if self.r.random() < 0.7 or ty == "var" else "")
             self._mark = mods + ty + " " + decl + ";"
